@@ -392,14 +392,13 @@ Qed.
 Corollary model_fit_scale_single s maxiter lower upper bkspace k c ss iv g g' :
   let gb := knots_of_option (OBkspace bkspace) (map (nthQ (c_inloglam c)) ss) k 1 in
   (1 <= k)%nat -> (2 * k <= length gb)%nat -> 0 < s ->
-  c_ivar c = Some iv -> (c_nspec c < 2)%nat ->
+  c_ivar c = Some iv -> c_stacked c = false ->
   model_fit fit_dense maxiter lower upper bkspace k c ss = Some g ->
   model_fit fit_dense maxiter lower upper bkspace k (scale_cin s c) ss = Some g' ->
   fit_equiv (Some g') (scale_fit s (Some g)).
 Proof.
   intros gb Hk Hg Hs Hiv Hn. apply model_fit_scale_gen; try assumption.
-  intros i _. unfold weights. cbn [scale_cin c_ivar c_nspec]. rewrite Hiv.
-  replace (2 <=? c_nspec c)%nat with false by (symmetry; apply Nat.leb_gt; exact Hn).
+  intros i _. unfold weights. cbn [scale_cin c_ivar c_nspec c_stacked]. rewrite Hiv, Hn.
   apply (nthQ_map0 (fun v => v / (s * s))). unfold Qdiv. ring.
 Qed.
 
